@@ -46,10 +46,11 @@ class DeepEqLeaf(Contract):
     # --- exact characterisation of the body's result (what the code computes; proved, used by the lemmas)
     def exact(self, c, x, o):
         y = ref(o)
+        same_type = c.kind(y) == c.kind(x)
         if self.recv in ("ByteBlock", "DataBlock") or self.as_super:
-            return z3.And(is_VRef(o), c.isinst(y, "ByteBlock"), D.same_byteblock(c, x, y))
+            return z3.And(is_VRef(o), c.isinst(y, "ByteBlock"), same_type, D.same_byteblock(c, x, y))
         if self.recv == "CodeBlock":
-            return z3.And(is_VRef(o), c.isinst(y, "CodeBlock"), D.same_codeblock(c, x, y))
+            return z3.And(is_VRef(o), c.isinst(y, "CodeBlock"), same_type, D.same_codeblock(c, x, y))
         if self.recv == "ProxyBlock":
             return z3.And(is_VRef(o), c.isinst(y, "ProxyBlock"), c.get("uuid", x) == c.get("uuid", y))
         raise ValueError(self.recv)
